@@ -645,6 +645,8 @@ func c09NamedTypes(split bool) *Prog {
 		&Func{Name: "viaPair", Params: []string{"n"}, PTypes: []*Ty{TInt}, Results: []*Ty{tCs, tLv}, Body: []*S{{K: "return", NRes: 2, Exprs: []*E{call("pair", nil, 2, v("n", TInt))}}}},
 		&Func{Name: "none", Params: []string{"n"}, PTypes: []*Ty{TInt}, Results: []*Ty{tLi}, Body: []*S{ret(&E{K: "zero", Ty: tLi})}},
 		&Func{Name: "count", Params: []string{"l"}, PTypes: []*Ty{tLi}, Results: []*Ty{TInt}, Body: []*S{ret(lenOf(v("l", tLi)))}},
+		&Func{Name: "blank", Params: []string{"_", "_", "x", "_"}, PTypes: []*Ty{TInt, TString, TInt, TInt}, Results: []*Ty{TInt}, Body: []*S{dcl("y", v("x", TInt)), ret(bin("*", TInt, v("y", TInt), lit(TInt, 2)))}},
+		&Func{Name: "blank2", Params: []string{"_", "_"}, PTypes: []*Ty{TInt, TInt}, Results: []*Ty{TInt}, Body: []*S{ret(lit(TInt, 1))}},
 		&Func{Name: "spread", Params: []string{"xs"}, PTypes: []*Ty{SliceOf(tCs)}, Variadic: true, Results: []*Ty{tCs}, Body: []*S{
 			ret(bin("+", tCs, &E{K: "index", Ty: tCs, X: v("xs", SliceOf(tCs)), I: lit(TInt, 0)}, &E{K: "index", Ty: tCs, X: v("xs", SliceOf(tCs)), I: lit(TInt, 1)}))}},
 	)
@@ -664,6 +666,7 @@ func c09NamedTypes(split bool) *Prog {
 		asg(v("x", tLi), &E{K: "append", Ty: tLi, X: v("x", tLi), Args: []*E{lit(TInt, 5)}}),
 		pr(sS("appended"), lenOf(v("x", tLi)), &E{K: "index", Ty: TInt, X: v("x", tLi), I: lit(TInt, 0)}),
 		pr(sS("spread"), call("spread", tCs, 1, lit(tCs, 200), lit(tCs, 100))),
+		pr(sS("blank"), call("blank", TInt, 1, lit(TInt, 1), sS("s"), lit(TInt, 21), lit(TInt, 4)), call("blank2", TInt, 1, lit(TInt, 4), lit(TInt, 5))),
 	}
 	p.Funcs = append(p.Funcs, &Func{Name: "Main", Body: body})
 	if split {
